@@ -172,8 +172,13 @@ StringDictionaryRPFC::StringDictionaryRPFC(IteratorDictString *it,
 
     for (bucket = 1; bucket <= buckets; bucket++) {
       // Checking the available space in textStrings and
-      // realloc if required
-      while ((bytesStrings + (bucketsize * 1000)) > reservedStrings)
+      // realloc if required: the bucket takes its header and bitsrp bits for
+      // each symbol of its internal strings (plus the byte cleared ahead)
+      size_t required =
+          headers[bucket].size() +
+          ((beginnings[bucket] - beginnings[bucket - 1]) * (size_t)bitsrp) / 8 +
+          2;
+      while ((bytesStrings + required) > reservedStrings)
         reservedStrings = Reallocate(&textStrings, reservedStrings);
 
       bytes = 0;
